@@ -1,4 +1,123 @@
+/-
+  C16 — segment, polygon and triangle membership is the closed Cartesian point set.
+  The arithmetic of `SegmentTensor.contains` and `Triangle.contains` is regenerated from geometer/shapes.py
+  (translator A, Geo/Gen/Shapes.lean); polygon membership is decided by the correspondence (exhaustive lattice
+  enumeration in the thorough tier) against the independent even–odd specification `Spec.inPolygon`.
+-/
+import Geo.Gen.Shapes
 import Geo.Spec.Shapes
+import Geo.Proofs.Lemmas
+import Mathlib.Algebra.Order.Field.Basic
+import Mathlib.Tactic.Linarith
+import Mathlib.Tactic.Positivity
 namespace Geo
-theorem C16_placeholder : (1 : Nat) = 1 := rfl
+open Spec
+
+section
+variable {K : Type} [CommRing K]
+
+/-- **T16.1** (algebra) for normalised endpoints with Gram entries `aa = a·a`, `ab = a·b`, `bb = b·b` and the query
+    `p = (1−t) a + t b`, the code's quantities are `z = −t·D`, `w = −D` with `D = aa·bb − ab²` (Gram determinant) -/
+theorem T16_1_segment_zw (aa ab bb t : K) :
+    let b : Nat → K := fun k => if k = Gen.seg_gram_cols.1 then aa else ab      -- column 0 of m mᵀ: (a·a, b·a)
+    let c : Nat → K := fun k => if k = 0 then ab else bb                          -- column 1 of m mᵀ: (a·b, b·b)
+    let d : Nat → K := fun k => if k = 0 then (1 - t) * aa + t * ab else (1 - t) * ab + t * bb   -- m·p
+    let cd := Gen.seg_cd b c d
+    let bd := Gen.seg_bd b c d
+    Gen.seg_z cd bd = -(t * (aa * bb - ab * ab)) ∧ Gen.seg_w cd bd = -(aa * bb - ab * ab) := by
+  simp [Gen.seg_cd, Gen.seg_bd, Gen.seg_z, Gen.seg_w, Gen.seg_gram_cols]
+  constructor <;> ring
+
+/-- **T16.2** (algebra) barycentric coordinates: for `p = α a + β b + γ c` the three determinants are
+    `α·det[a,b,c]`, `β·det[a,b,c]`, `γ·det[a,b,c]` -/
+theorem T16_2_triangle_lambdas (a b c : Nat → K) (al be ga : K) :
+    let p : Nat → K := fun k => al * a k + be * b k + ga * c k
+    Gen.tri_lambda1 a b c p = al * det3 a b c ∧ Gen.tri_lambda2 a b c p = be * det3 a b c ∧
+    Gen.tri_lambda3 a b c p = ga * det3 a b c := by
+  simp [Gen.tri_lambda1, Gen.tri_lambda2, Gen.tri_lambda3, det3]
+  refine ⟨?_, ?_, ?_⟩ <;> ring
+
+end
+
+section
+variable {F : Type} [Field F] [LinearOrder F] [IsStrictOrderedRing F]
+
+/-- **T16.1** (order) the interval test `0 ≤ x ≤ y` on `x = z·w`, `y = w²` decides `0 ≤ t ≤ 1` whenever the endpoints are
+    independent (`D ≠ 0`) -/
+theorem T16_1_segment_interval (t D : F) (hD : D ≠ 0) :
+    (0 ≤ (-(t * D)) * (-D) ∧ (-(t * D)) * (-D) ≤ (-D) * (-D)) ↔ (0 ≤ t ∧ t ≤ 1) := by
+  have hpos : 0 < D * D := mul_self_pos.mpr hD
+  have e1 : (-(t * D)) * (-D) = t * (D * D) := by ring
+  have e2 : (-D) * (-D) = D * D := by ring
+  rw [e1, e2]
+  constructor
+  · rintro ⟨h1, h2⟩
+    constructor
+    · by_contra hneg
+      push_neg at hneg
+      have : t * (D * D) < 0 := mul_neg_of_neg_of_pos hneg hpos
+      linarith
+    · by_contra hgt
+      push_neg at hgt
+      have : 1 * (D * D) < t * (D * D) := mul_lt_mul_of_pos_right hgt hpos
+      linarith
+  · rintro ⟨h1, h2⟩
+    constructor
+    · exact mul_nonneg h1 hpos.le
+    · calc t * (D * D) ≤ 1 * (D * D) := mul_le_mul_of_nonneg_right h2 hpos.le
+        _ = D * D := one_mul _
+
+/-- **T16.2** (order) "all three determinants ≥ 0 or all ≤ 0" ⇔ `α, β, γ ≥ 0`, for a non-degenerate triangle of either
+    orientation — the closed triangle, boundary and vertices included -/
+theorem T16_2_triangle_sign (al be ga dt : F) (hd : dt ≠ 0) :
+    ((0 ≤ al * dt ∧ 0 ≤ be * dt ∧ 0 ≤ ga * dt) ∨ (al * dt ≤ 0 ∧ be * dt ≤ 0 ∧ ga * dt ≤ 0)) ∧ (al + be + ga = 1)
+      ↔ (0 ≤ al ∧ 0 ≤ be ∧ 0 ≤ ga) ∧ (al + be + ga = 1) := by
+  constructor
+  · rintro ⟨h, hs⟩
+    refine ⟨?_, hs⟩
+    rcases lt_or_gt_of_ne hd with hneg | hpos
+    · -- dt < 0
+      rcases h with ⟨h1, h2, h3⟩ | ⟨h1, h2, h3⟩
+      · -- all products ≥ 0 with dt < 0 ⇒ all coefficients ≤ 0 ⇒ sum ≤ 0, contradiction with sum = 1
+        have a1 : al ≤ 0 := by by_contra h; push_neg at h; have := mul_neg_of_pos_of_neg h hneg; linarith
+        have a2 : be ≤ 0 := by by_contra h; push_neg at h; have := mul_neg_of_pos_of_neg h hneg; linarith
+        have a3 : ga ≤ 0 := by by_contra h; push_neg at h; have := mul_neg_of_pos_of_neg h hneg; linarith
+        linarith
+      · have a1 : 0 ≤ al := by by_contra h; push_neg at h; have := mul_pos_of_neg_of_neg h hneg; linarith
+        have a2 : 0 ≤ be := by by_contra h; push_neg at h; have := mul_pos_of_neg_of_neg h hneg; linarith
+        have a3 : 0 ≤ ga := by by_contra h; push_neg at h; have := mul_pos_of_neg_of_neg h hneg; linarith
+        exact ⟨a1, a2, a3⟩
+    · rcases h with ⟨h1, h2, h3⟩ | ⟨h1, h2, h3⟩
+      · have a1 : 0 ≤ al := by by_contra h; push_neg at h; have := mul_neg_of_neg_of_pos h hpos; linarith
+        have a2 : 0 ≤ be := by by_contra h; push_neg at h; have := mul_neg_of_neg_of_pos h hpos; linarith
+        have a3 : 0 ≤ ga := by by_contra h; push_neg at h; have := mul_neg_of_neg_of_pos h hpos; linarith
+        exact ⟨a1, a2, a3⟩
+      · have a1 : al ≤ 0 := by by_contra h; push_neg at h; have := mul_pos h hpos; linarith
+        have a2 : be ≤ 0 := by by_contra h; push_neg at h; have := mul_pos h hpos; linarith
+        have a3 : ga ≤ 0 := by by_contra h; push_neg at h; have := mul_pos h hpos; linarith
+        linarith
+  · rintro ⟨⟨h1, h2, h3⟩, hs⟩
+    refine ⟨?_, hs⟩
+    rcases lt_or_gt_of_ne hd with hneg | hpos
+    · right
+      exact ⟨mul_nonpos_of_nonneg_of_nonpos h1 hneg.le, mul_nonpos_of_nonneg_of_nonpos h2 hneg.le,
+        mul_nonpos_of_nonneg_of_nonpos h3 hneg.le⟩
+    · left
+      exact ⟨mul_nonneg h1 hpos.le, mul_nonneg h2 hpos.le, mul_nonneg h3 hpos.le⟩
+
+/-- the Gram determinant of two independent real vectors is positive (Lagrange identity, plane case): the segment's
+    endpoints being distinct points makes `D ≠ 0` in T16.1 -/
+theorem T16_1_gram_pos (a0 a1 b0 b1 : F) (h : a0 * b1 - a1 * b0 ≠ 0) :
+    0 < (a0 * a0 + a1 * a1 + 1) * (b0 * b0 + b1 * b1 + 1) - (a0 * b0 + a1 * b1 + 1) * (a0 * b0 + a1 * b1 + 1) := by
+  have e : (a0 * a0 + a1 * a1 + 1) * (b0 * b0 + b1 * b1 + 1) - (a0 * b0 + a1 * b1 + 1) * (a0 * b0 + a1 * b1 + 1)
+      = (a0 * b1 - a1 * b0) ^ 2 + (a0 - b0) ^ 2 + (a1 - b1) ^ 2 := by ring
+  rw [e]
+  have := pow_pos (abs_pos.mpr h) 2
+  have h1 : 0 < (a0 * b1 - a1 * b0) ^ 2 := by rwa [sq_abs] at this
+  positivity
+
+/-- non-vacuity: the unit segment, t = 1/2 -/
+example : (0 : ℚ) ≤ 1 / 2 ∧ (1 / 2 : ℚ) ≤ 1 := by norm_num
+
+end
 end Geo
